@@ -65,6 +65,9 @@ def lex(s):
             toks.append(("rem", s[pos:]))
             break
         if kind == "op" and text == "'":
+            # the apostrophe is the token :REM - it also ends the statement in front of it
+            if toks and toks[-1] != ("op", ":"):
+                toks.append(("op", ":"))
             toks.append(("rem", s[pos:]))
             break
         if kind == "id" and text == "DATA":
